@@ -40,7 +40,7 @@ func runC04_9(c *core.Ctx) {
 				return flow.ObjOf(f.Info, e) == fdObj
 			}
 			fl := flow.FieldOf(f.Info, e)
-			return fl != nil && fl.Name() == "fd"
+			return fl != nil && nameOf(fl) == "fd"
 		}
 		isCb := func(e ast.Expr) bool {
 			if flow.IsNil(f.Info, e) {
